@@ -2,7 +2,10 @@
 # Must-fail corpus: every patch in selftest/mutants and every seeded change under seeded/*/patch.diff
 # whose meta.json says "detected" is applied in turn to a scratch worktree of /repo's HEAD (under
 # /tmp, removed at the end), and the property's check, pointed at that tree with --dir, must exit 1
-# with a VIOLATION line. /repo itself is not touched.
+# with a VIOLATION line. /repo itself is not touched. To keep the corpus affordable only the functions of
+# the packages a patch touches are re-verified (HVC_ONLY_PKGS), and a run stops scheduling solver jobs
+# after three obligations have failed (HVC_FAILFAST), without the search for a failing input that a
+# normal run adds (HVC_NOSEARCH: the direct replay of a solver model is kept).
 # usage: selftest.sh [filter]
 set -u
 cd /verif
@@ -15,7 +18,9 @@ run() { # prop patch
   local P=$1 patch=$2
   if [ -n "${SELFTEST_SKIP:-}" ] && grep -q "$(basename $(dirname $patch))/$(basename $patch)" "$SELFTEST_SKIP" 2>/dev/null; then return; fi
   git -C $W apply "/verif/$patch" 2>/dev/null || { echo "SKIPPED  $P $patch (does not apply to the current tree)"; return; }
-  out=$(HVC_NO_EVIDENCE=1 HVC_NORESCUE=1 ./bin/hvc check $P --dir $W 2>&1); rc=$?
+  # the packages the patch touches (directories relative to the module root): only their functions are re-verified
+  pk=$(grep '^+++ b/' "/verif/$patch" | sed 's|^+++ b/||; s|/[^/]*$||' | sort -u | tr '\n' ',' | sed 's/,$//')
+  out=$(HVC_NO_EVIDENCE=1 HVC_NORESCUE=1 HVC_FAILFAST=3 HVC_NOSEARCH=1 HVC_ONLY_PKGS="$pk" ./bin/hvc check $P --dir $W 2>&1); rc=$?
   git -C $W checkout -- .
   v=$(echo "$out" | grep -c "^VIOLATION property=$P ")
   if [ $rc -eq 1 ] && [ $v -ge 1 ]; then
